@@ -46,8 +46,13 @@ Balanced == done => /\ st.tags = <<>>
                     /\ (~D.indef /\ (Fixed = DevNames \/ st.devs = {})) =>
                          /\ st.outs = <<>> /\ st.loc.mom = NoLoc /\ st.loc.stack = <<>> /\ st.cm.stk = <<>> /\ st.cm.ifasm
                          /\ \A m \in DOMAIN st.macros : st.macros[m].useCnt = 0
+\* C20 (position part): every statement is attributed to the place the text puts it: file and line last read,
+\* and for every construct being expanded what it expands, the iteration and the body line
+PosAgree == done => ((~D.indef /\ (Fixed = DevNames \/ (st.devs = {} /\ st.pdevs = {}))) =>
+                       /\ Len(st.delivered) = Len(D.raw)
+                       /\ \A i \in DOMAIN D.raw : st.delivered[i].pos = D.raw[i].pos)
 \* the repaired design never takes a deviating branch
-NoDevWhenFixed == (Fixed = DevNames) => st.devs = {}
+NoDevWhenFixed == (Fixed = DevNames) => st.devs = {} /\ st.pdevs = {}
 \* counters of every tag stay inside the body they index
 TagsOK == \A i \in DOMAIN st.tags :
             LET t == st.tags[i] IN
